@@ -585,6 +585,11 @@ class ResetInterp:
                 self._fname = f.name
                 res += self.block(rest, c3, f)
             return res
+        if isinstance(val, ast.Call) and isinstance(val.func, ast.Name) and \
+                val.func.id == 'int' and len(val.args) == 1 and not val.keywords and \
+                isinstance(val.args[0], ast.Call) and \
+                src(val.args[0].func) in ('rng.integers',):
+            val = val.args[0]       # the same number as a python int (a helper of rng.py)
         if isinstance(val, ast.Call) and src(val.func) in ('rng.integers',) and \
                 isinstance(tg, ast.Name):
             ia = list(val.args)
